@@ -91,7 +91,21 @@ TEMPLATE = ("{year}{month}{day}{hour}{minute}{second}-{end_year}{end_month}"
             "{end_day}{end_hour}{end_minute}{end_second}.pkl")
 OUT_TEMPLATE = ("{year}{month}{day}{hour}{minute}{second}-{end_year}"
                 "{end_month}{end_day}{end_hour}{end_minute}{end_second}.pkl")
+# a compressed output fileset with day directories: results of the same
+# time of day on different days have one base name (cfg["out"] == "gzdays")
+OUT_TEMPLATE_GZDAYS = ("{year}/{month}/{day}/{hour}{minute}{second}-"
+                       "{end_hour}{end_minute}{end_second}.pkl.gz")
 MAX_DISTANCE = "5 km"
+
+
+def out_template(cfg):
+    return OUT_TEMPLATE_GZDAYS if cfg.get("out") == "gzdays" else OUT_TEMPLATE
+
+
+def load_pickle(path):
+    import gzip
+    with (gzip.open if path.endswith(".gz") else open)(path, "rb") as f:
+        return pickle.load(f)
 
 FAIL = set()            # paths the reader refuses (fault injection)
 READ_MEMO = None        # dict or None
@@ -206,14 +220,16 @@ class World:
                          handler=FileHandler(reader=reader, writer=writer))
         self.nout = 0
 
-    def output(self):
+    def output(self, template=OUT_TEMPLATE):
         from typhon.collocations import Collocations
         from typhon.files import FileHandler
         self.nout += 1
         d = os.path.join(self.root, "out%d" % self.nout)
-        return Collocations(os.path.join(d, OUT_TEMPLATE), name="out",
+        tmp = os.path.join(d, "tmp")
+        os.makedirs(tmp)
+        return Collocations(os.path.join(d, "o", template), name="out",
                             handler=FileHandler(reader=reader, writer=writer),
-                            read_mode="compact"), d
+                            read_mode="compact", temp_dir=tmp), d
 
 
 def minutes(mi):
@@ -302,9 +318,16 @@ def observe(world, cfg, items, output, outdir):
             results.append(it[0] if isinstance(it, tuple) else it)
     else:
         written = []
-        for dirpath, _, names in os.walk(outdir):
+        top = os.path.join(outdir, "o")
+        for dirpath, _, names in os.walk(top):
             written.extend(os.path.join(dirpath, n) for n in names)
         written.sort()
+        left = sorted(os.listdir(os.path.join(outdir, "tmp")))
+        if left:
+            problems.append(("output/temporary-left-behind", [], left))
+
+        def rel(path):
+            return os.path.relpath(os.fspath(path), top)
         if items is SEARCHED:
             items = written
         crashed = sum(1 for it in items if it is ProcessCrashed)
@@ -312,25 +335,30 @@ def observe(world, cfg, items, output, outdir):
                          if i is not ProcessCrashed)
         if sorted(set(yielded)) != written:
             problems.append(("output/yielded-names-differ-from-files-written",
-                             [os.path.basename(p) for p in written],
-                             [os.path.basename(p) for p in yielded]))
+                             [rel(p) for p in written],
+                             [rel(p) for p in yielded]))
         import numpy as np
         for path in written:
-            with open(path, "rb") as f:
-                ds = pickle.load(f)
+            try:
+                ds = load_pickle(path)
+            except Exception as exc:
+                problems.append(("output/file-is-not-what-its-name-says",
+                                 None, "%s: %s" % (rel(path),
+                                                   type(exc).__name__)))
+                continue
             got = output.read(path)
             if not got.equals(ds):
                 problems.append(("output/file-does-not-read-back-equal",
-                                 None, os.path.basename(path)))
+                                 None, rel(path)))
             results.append(ds)
             times = ds["A/time"].values[ds["Collocations/pairs"].values[0]]
             span = (np.min(times).astype("M8[s]").item(),
                     np.max(times).astype("M8[s]").item())
-            name = fsbuild.render(OUT_TEMPLATE, span[0], span[1])
-            if name != os.path.basename(path):
+            name = fsbuild.render(out_template(cfg), span[0], span[1])
+            if name != rel(path):
                 problems.append((
                     "output/file-not-named-by-span-of-its-content",
-                    name, os.path.basename(path)))
+                    name, rel(path)))
     for ds in results:
         pairs.extend(pairs_of(ds))
         bad = wrong_files(world, ds)
@@ -414,7 +442,8 @@ def expected_results(world, cfg, processes, exp):
     out = []
     for prs in bundles:
         times = [time_of[a].replace(microsecond=0) for a, _ in prs]
-        out.append((fsbuild.render(OUT_TEMPLATE, min(times), max(times)),
+        out.append((fsbuild.render(out_template(cfg), min(times),
+                                   max(times)),
                     sorted(prs)))
     return out
 
@@ -530,7 +559,7 @@ def run_scheduled(ctx, world, cfg, processes, memo, horizon=3000):
     SCHED = s
     output, outdir = (None, None)
     if cfg["output"] == "fileset":
-        output, outdir = world.output()
+        output, outdir = world.output(out_template(cfg))
     obs = None
     try:
         world.A.info_cache.clear()
@@ -594,6 +623,8 @@ LAYOUTS = {
     # midnight between slots 5 and 6: a worker's results change the day
     # between two primaries / between two secondaries of one primary
     "days": dict(A=[[5], [6], [7]], B=[[5], [6], [7]], mi=5),
+    # the same time of day on two days (a day has 144 slots)
+    "twindays": dict(A=[[0], [144]], B=[[0], [144]], mi=5),
     "days1B": dict(A=[[5], [6], [7]], B=[[5, 6, 7]], mi=5),
     "days1A": dict(A=[[5, 6], [7]], B=[[5], [6], [7]], mi=5),
 }
@@ -621,6 +652,12 @@ def schedule_configs(tier):
     # with everything else)
     out.append((base_cfg("2x1", None, "fileset", fine=True), 2, 1, None))
     out.append((base_cfg("2x2", "primary", "fileset", fine=True), 2, 1, None))
+    # compressed output below day directories, two results of one base name
+    # written by two workers (whatever compress() derives from the base name
+    # alone is shared by them)
+    twin = base_cfg("twindays", None, "fileset", fine=True)
+    twin.update(out="gzdays", end=T0 + 150 * SLOT)
+    out.append((twin, 2, 1, None))
     out.append((base_cfg("2x1far"), 2, deep, None))
     out.append((base_cfg("2x2none"), 2, wide, None))
     out.append((base_cfg("2x2none", "primary", "fileset"), 2, wide, None))
@@ -964,7 +1001,7 @@ def run_real(world, cfg, processes, timeout=90):
 def _run_real_inner(world, cfg, processes):
     output, outdir = (None, None)
     if cfg["output"] == "fileset":
-        output, outdir = world.output()
+        output, outdir = world.output(out_template(cfg))
     world.A.info_cache.clear()
     world.B.info_cache.clear()
     try:
